@@ -2978,3 +2978,7 @@ fn non_scalar_key() -> Result<ser::Impossible<(), Error>> {
 fn non_scalar_key_e() -> Result<()> {
     Err(Error::unexpected("non-scalar key"))
 }
+
+#[cfg(feature = "verif_hooks")]
+#[path = "verif_hooks/serq_ser.rs"]
+pub mod verif_serq;
